@@ -38,7 +38,7 @@ def prepare_crate(unit):
 
 def run_kani(ctx, unit, harness=(), flags=(), rustflags=None, jobs=16, harness_timeout='10m',
              wall_timeout=3600, tag=None, features=None, no_default_features=False,
-             allow_failed=None, bounded_note=None, key_prefix=None, playback=True, search=None):
+             allow_failed=None, bounded_note=None, key_prefix=None, playback=True, search=None, ignore_nan_checks=True):
     """Run harnesses (substring filters) of kani/<unit>. Returns parsed JSON (or None)."""
     crate, target = prepare_crate(unit)
     tag = tag or 'default'
@@ -95,6 +95,10 @@ def run_kani(ctx, unit, harness=(), flags=(), rustflags=None, jobs=16, harness_t
         hid = r['harness_id']
         checks = r.get('checks', [])
         failed = [c for c in checks if c.get('status') in ('Failure', 'Failed', 'FAILURE')]
+        if ignore_nan_checks:
+            # `NaN on addition/multiplication/...` are Kani-specific float checks: producing a NaN is not a panic in
+            # Rust; harnesses that care about NaN assert it explicitly
+            failed = [c for c in failed if not c.get('description', '').startswith('NaN on ')]
         covers_all = [c for c in checks if c.get('category') == 'cover']
         # covers named MUST-BE-UNREACHABLE state that control never gets there (e.g. after an operation that
         # has to panic): satisfied => violation; all other covers are vacuity guards and must be satisfied
@@ -124,7 +128,8 @@ def run_kani(ctx, unit, harness=(), flags=(), rustflags=None, jobs=16, harness_t
         if unwind_fail:
             ctx.undecide('kani %s: unwinding bound too small in %s (bound exceeded, undecided)' % (unit, hid))
             continue
-        if r.get('status') != 'Success' and not failed:
+        only_ignored = ignore_nan_checks and any(c.get('status') in ('Failure', 'Failed', 'FAILURE') for c in checks) and not failed
+        if r.get('status') != 'Success' and not failed and not only_ignored:
             ctx.undecide('kani %s: harness %s did not complete (status %s: timeout / solver limit)' % (unit, hid, r.get('status')))
             continue
         if r.get('status') != 'Success' and failed and not real_fail:
